@@ -25,6 +25,62 @@ const MIGRATIONS: &[&[&str]] = &[
     &["ALTER TABLE packages ADD COLUMN not_found INTEGER NOT NULL DEFAULT 0"],
 ];
 
+
+/// Verification hooks: a virtual clock (H1) and numbered statement points (H2).
+/// Compiled only with the `verif` cargo feature.
+#[cfg(feature = "verif")]
+pub mod verif_hooks {
+    use std::sync::RwLock;
+    use std::sync::atomic::{AtomicBool, AtomicI64, Ordering};
+
+    use crate::version::error::CacheError;
+
+    static CLOCK_SET: AtomicBool = AtomicBool::new(false);
+    static CLOCK: AtomicI64 = AtomicI64::new(0);
+
+    /// Override (Some) or restore (None) the clock used by the cache.
+    pub fn set_clock(value: Option<i64>) {
+        match value {
+            Some(v) => {
+                CLOCK.store(v, Ordering::SeqCst);
+                CLOCK_SET.store(true, Ordering::SeqCst);
+            }
+            None => CLOCK_SET.store(false, Ordering::SeqCst),
+        }
+    }
+
+    pub fn clock() -> Option<i64> {
+        if CLOCK_SET.load(Ordering::SeqCst) {
+            Some(CLOCK.load(Ordering::SeqCst))
+        } else {
+            None
+        }
+    }
+
+    /// Handler called at every statement point with (function name, point number).
+    /// It may block (to realise a schedule), abort the process, or return `true`
+    /// to make the cache operation fail with a database error at that point.
+    pub type PointHandler = dyn Fn(&'static str, u32) -> bool + Send + Sync;
+
+    static HANDLER: RwLock<Option<Box<PointHandler>>> = RwLock::new(None);
+
+    pub fn set_point_handler(handler: Option<Box<PointHandler>>) {
+        *HANDLER.write().unwrap() = handler;
+    }
+
+    pub fn point(function: &'static str, k: u32) -> Result<(), CacheError> {
+        let fail = match HANDLER.read().unwrap().as_ref() {
+            Some(h) => h(function, k),
+            None => false,
+        };
+        if fail {
+            Err(CacheError::Database(rusqlite::Error::InvalidQuery))
+        } else {
+            Ok(())
+        }
+    }
+}
+
 pub struct Cache {
     conn: Mutex<Connection>,
     refresh_interval: i64,
@@ -66,6 +122,10 @@ impl Cache {
 
     /// Get current timestamp in milliseconds since UNIX epoch
     fn current_timestamp_ms() -> i64 {
+        #[cfg(feature = "verif")]
+        if let Some(t) = verif_hooks::clock() {
+            return t;
+        }
         std::time::SystemTime::now()
             .duration_since(std::time::UNIX_EPOCH)
             .expect("system time before UNIX epoch")
@@ -90,11 +150,15 @@ impl Cache {
             "#,
             [],
         )?;
+        #[cfg(feature = "verif")]
+        verif_hooks::point("create_schema", 1)?;
 
         conn.execute(
             "CREATE INDEX IF NOT EXISTS idx_updated_at ON packages(updated_at)",
             [],
         )?;
+        #[cfg(feature = "verif")]
+        verif_hooks::point("create_schema", 2)?;
 
         conn.execute(
             r#"
@@ -108,11 +172,15 @@ impl Cache {
             "#,
             [],
         )?;
+        #[cfg(feature = "verif")]
+        verif_hooks::point("create_schema", 3)?;
 
         conn.execute(
             "CREATE INDEX IF NOT EXISTS idx_package_id ON versions(package_id)",
             [],
         )?;
+        #[cfg(feature = "verif")]
+        verif_hooks::point("create_schema", 4)?;
 
         conn.execute(
             r#"
@@ -127,11 +195,15 @@ impl Cache {
             "#,
             [],
         )?;
+        #[cfg(feature = "verif")]
+        verif_hooks::point("create_schema", 5)?;
 
         conn.execute(
             "CREATE INDEX IF NOT EXISTS idx_dist_tags_package_id ON dist_tags(package_id)",
             [],
         )?;
+        #[cfg(feature = "verif")]
+        verif_hooks::point("create_schema", 6)?;
 
         // Apply migrations
         Self::apply_migrations(&conn)?;
@@ -144,6 +216,8 @@ impl Cache {
     fn apply_migrations(conn: &Connection) -> Result<(), CacheError> {
         let current_version: i32 =
             conn.pragma_query_value(None, "user_version", |row| row.get(0))?;
+        #[cfg(feature = "verif")]
+        verif_hooks::point("apply_migrations", 0)?;
 
         for (i, statements) in MIGRATIONS.iter().enumerate() {
             let version = (i + 1) as i32;
@@ -160,6 +234,8 @@ impl Cache {
                         }
                         Err(e) => return Err(e.into()),
                     }
+                    #[cfg(feature = "verif")]
+                    verif_hooks::point("apply_migrations", version as u32)?;
                 }
                 debug!("Applied migration v{}", version);
             }
@@ -213,6 +289,8 @@ impl Cache {
 
         // Get or create package
         let now = Self::current_timestamp_ms();
+        #[cfg(feature = "verif")]
+        verif_hooks::point("save_dist_tags", 0)?;
 
         tx.execute(
             r#"
@@ -222,6 +300,8 @@ impl Cache {
             "#,
             (registry_type_str, package_name, now),
         )?;
+        #[cfg(feature = "verif")]
+        verif_hooks::point("save_dist_tags", 1)?;
 
         let package_id: i64 = tx.query_row(
             "SELECT id FROM packages WHERE registry_type = ?1 AND package_name = ?2",
@@ -231,6 +311,8 @@ impl Cache {
 
         // Delete existing dist tags and insert new ones
         tx.execute("DELETE FROM dist_tags WHERE package_id = ?1", [package_id])?;
+        #[cfg(feature = "verif")]
+        verif_hooks::point("save_dist_tags", 2)?;
 
         {
             let mut stmt = tx.prepare(
@@ -238,8 +320,12 @@ impl Cache {
             )?;
             for (tag_name, version) in dist_tags {
                 stmt.execute((package_id, tag_name, version))?;
+                #[cfg(feature = "verif")]
+                verif_hooks::point("save_dist_tags", 3)?;
             }
         }
+        #[cfg(feature = "verif")]
+        verif_hooks::point("save_dist_tags", 4)?;
 
         tx.commit()?;
         Ok(())
@@ -370,6 +456,8 @@ impl VersionStorer for Cache {
 
         let mut conn = self.lock_conn()?;
         let tx = conn.transaction()?;
+        #[cfg(feature = "verif")]
+        verif_hooks::point("replace_versions", 0)?;
 
         // Insert or update package
         tx.execute(
@@ -380,6 +468,8 @@ impl VersionStorer for Cache {
             "#,
             (registry_type, package_name, now),
         )?;
+        #[cfg(feature = "verif")]
+        verif_hooks::point("replace_versions", 1)?;
 
         // Get package_id
         let package_id: i64 = tx.query_row(
@@ -395,8 +485,12 @@ impl VersionStorer for Cache {
                 tx.prepare("INSERT OR IGNORE INTO versions (package_id, version) VALUES (?1, ?2)")?;
             for version in &versions {
                 stmt.execute((package_id, version))?;
+                #[cfg(feature = "verif")]
+                verif_hooks::point("replace_versions", 2)?;
             }
         }
+        #[cfg(feature = "verif")]
+        verif_hooks::point("replace_versions", 3)?;
 
         tx.commit()?;
 
@@ -466,6 +560,8 @@ impl VersionStorer for Cache {
         if rows_affected > 0 {
             return Ok(true);
         }
+        #[cfg(feature = "verif")]
+        verif_hooks::point("try_start_fetch", 1)?;
 
         // Package might not exist yet - try to insert with fetching_since set
         // INSERT OR IGNORE ensures only the first caller succeeds for new packages
